@@ -279,6 +279,8 @@ pub enum ExpReply {
     },
     /// InvalidParameter whose text comes from serde
     InvalidParamAny,
+    /// any final error reply (only ever used as the *suppressed* reply of a oneway request)
+    AnyError,
 }
 
 impl ExpReply {
@@ -289,6 +291,7 @@ impl ExpReply {
         match self {
             ExpReply::Exact(v) => v == obs,
             ExpReply::Loose(v) => strip_nulls(v) == strip_nulls(obs),
+            ExpReply::AnyError => obs.get("error").map_or(false, |e| e.is_string()) && obs.get("continues") != Some(&Value::Bool(true)),
             ExpReply::InvalidParamAny => {
                 let o = match obs.as_object() {
                     Some(o) => o,
@@ -564,6 +567,14 @@ fn scripted_expect(iface: &str, mname: &str, r: &ReqView) -> Expect {
             e
         }
         "Script" => script_expect(iface, r, &token),
+        "ErrReply" => {
+            // the implementation returned Err without replying: the connection may be ended, or the
+            // service may pass the error on as the reply - but a oneway call stays unanswered
+            let mut e = plain(if r.oneway { vec![ExpReply::AnyError] } else { vec![] }, "scripted");
+            e.unspecified = !r.oneway;
+            e.then = Then::MayClose;
+            e
+        }
         _ => plain(
             vec![ExpReply::Exact(err_reply(
                 "org.varlink.service.MethodNotFound",
@@ -597,13 +608,18 @@ fn script_expect(iface: &str, r: &ReqView, token: &Value) -> Expect {
         match base {
             "c1" => cont = true,
             "c0" => cont = false,
+            // to_upgraded(): the connection belongs to the interface once the call is over; what the
+            // call may reply is not affected
+            "u" => e.upgraded = Some(iface.to_string()),
             "r" | "e" => {
                 let idx = i;
                 i += 1;
                 if cont && !r.more {
                     // gate: CallContinuesMismatch, nothing written
                     if !ignore {
+                        // the implementation returns the error: the call fails, no upgrade takes place
                         e.then = Then::MayClose;
+                        e.upgraded = None;
                         break;
                     }
                     continue;
